@@ -36,6 +36,26 @@ theorem initiallyFits (I : Inst) (init : List Pid) :
           Gen.C03.initiallyFits (init.contains p) (costOf I.cost init) (I.cost p) I.budget)
         alloc := init } := rfl
 
+/-- the WHOLE loop that rebuilds the list of still-fitting projects after a purchase (statement-level leaf `Gen.C03.stillFitsLoop`,
+    regenerated from `for project in feasible: if …: new_feasible.append(project)`): it is the filter by the regenerated fit test,
+    appended in order to what was kept before — which is how the model's `buy` is written (`stillFits` above) -/
+theorem stillFitsLoop (cost : Pid → Rat) (sel : Pid) (newCost budget : Rat) : ∀ (feas kept : List Pid),
+    Gen.C03.stillFitsLoop sel newCost budget kept (feas.map (fun p => (p, cost p))) =
+      kept ++ feas.filter (fun p => Gen.C03.stillFits (p == sel) newCost (cost p) budget)
+  | [], kept => by simp [Gen.C03.stillFitsLoop]
+  | p :: ps, kept => by
+    rw [List.map_cons, Gen.C03.stillFitsLoop, List.filter_cons]
+    have hb : ((p != sel) && decide (newCost + cost p ≤ budget)) = Gen.C03.stillFits (p == sel) newCost (cost p) budget := by
+      unfold Gen.C03.stillFits
+      cases h : (p == sel) <;> simp [bne, h]
+    simp only [hb]
+    by_cases h : Gen.C03.stillFits (p == sel) newCost (cost p) budget = true
+    · simp only [h, if_true]
+      rw [stillFitsLoop cost sel newCost budget ps (kept ++ [p])]
+      simp
+    · simp only [h, if_false, Bool.false_eq_true]
+      exact stillFitsLoop cost sel newCost budget ps kept
+
 /-! ### additive fast path -/
 
 /-- `satisfaction_density`: `frac(total_sat, cost)` for supported projects (`inf` at cost 0), 0 otherwise -/
